@@ -149,6 +149,45 @@ def emit (cd : Codec) (e : Enc) (c : Call) : Bytes × Bool :=
 (`processor.Message(d, es)` calls `emitter.Message(d, es)` and nothing else). -/
 def sinkFrames (cd : Codec) (e : Enc) (r : Res) : List (Bytes × Bool) := r.calls.map (emit cd e)
 
+/-! ### Specification vocabulary (used by the theorems, not by the driver) -/
+
+/-- One gRPC message as the sender put it on the wire: the compressed flag, the payload bytes
+that follow the 5-byte prefix, and the message they stand for. -/
+structure GMsg where
+  compressed : Bool
+  wire : Bytes
+  plain : Bytes
+deriving Repr, DecidableEq
+
+/-- length-prefixed message: flag byte, big-endian uint32 length, payload -/
+def GMsg.frame (m : GMsg) : Bytes :=
+  (if m.compressed then (1 : UInt8) else 0) :: (putBe32 m.wire.length ++ m.wire)
+
+/-- the byte stream of a message sequence -/
+def stream (ms : List GMsg) : Bytes := (ms.map GMsg.frame).flatten
+
+/-- `m.wire` really is `m.plain` under encoding `e` (as the library reads it), and fits a uint32 -/
+def GMsg.ok (cd : Codec) (e : Enc) (m : GMsg) : Prop :=
+  decode cd e m.compressed m.wire = some m.plain ∧ m.wire.length < 4294967296
+
+/-- The `Message` calls a processor must see for `ms`: the decompressed messages in order,
+end-of-stream (`es`) on the last one only. -/
+def expCalls : List GMsg → Bool → List Call
+  | [], _ => []
+  | [m], es => [⟨m.compressed, m.plain, es⟩]
+  | m :: m' :: ms, es => ⟨m.compressed, m.plain, false⟩ :: expCalls (m' :: ms) es
+
+/-- what the emitter makes of a message: same flag, same message, payload recompressed -/
+def GMsg.reenc (cd : Codec) (e : Enc) (m : GMsg) : GMsg :=
+  ⟨m.compressed, encode cd e m.compressed m.plain, m.plain⟩
+
+/-- an adapter between messages with an empty buffer (in particular a new one) -/
+def Adapter.atRest (a : Adapter) : Prop := a.reading = false ∧ a.buf = []
+
+/-- the adapter after message `m` has been delivered with `rest` still buffered -/
+def Adapter.afterDelivery (a : Adapter) (m : GMsg) (rest : Bytes) : Adapter :=
+  { enc := a.enc, buf := rest, reading := false, compressed := m.compressed, length := m.wire.length }
+
 /-! ### Headers and the stream-level dispatch -/
 
 abbrev Header := Bytes × Bytes
@@ -235,5 +274,29 @@ def Stream.data (cd : Codec) (s : Stream) (d : Dir) (b : Bytes) (es : Bool) : Op
     match r.next with
     | some a' => (some (s.set d a'), evs)
     | none => (none, evs ++ [.error "decompress"])
+
+/-- A frame of either direction, and the run of a whole frame sequence (stops at an error). -/
+inductive Frame where
+  | headers (d : Dir) (hs : List Header) (es : Bool)
+  | data (d : Dir) (b : Bytes) (es : Bool)
+deriving Repr, DecidableEq
+
+def Frame.announcesGrpc : Frame → Bool
+  | .headers _ hs _ => isGrpcHeaders hs
+  | .data _ _ _ => false
+
+/-- the frame as the destination sees it when it is forwarded untouched -/
+def Frame.forwarded : Frame → Dir × Ev
+  | .headers d hs es => (d, .sinkHeader hs es)
+  | .data d b es => (d, .sinkData b es)
+
+def Stream.run (cd : Codec) : Stream → List Frame → List (Dir × Ev)
+  | _, [] => []
+  | s, .headers d hs es :: fs =>
+    let r := s.header d hs es
+    r.2.map (fun e => (d, e)) ++ (if r.2.any (fun e => match e with | .error _ => true | _ => false) then [] else Stream.run cd r.1 fs)
+  | s, .data d b es :: fs =>
+    let r := Stream.data cd s d b es
+    r.2.map (fun e => (d, e)) ++ (match r.1 with | some s' => Stream.run cd s' fs | none => [])
 
 end Martian.Grpc
